@@ -1,6 +1,38 @@
 import PgFdr.Json
+import PgFdr.Model.C08
 namespace PgFdr.Driver
 open Lean PgFdr
+
+def errName : C08.Err → String
+  | .indexError => "index_error"
+  | .unknownEnzyme => "unknown_enzyme"
+
+def ofPeptides (l : List (List Char)) : Json := .arr (l.map (fun p => Json.str (String.ofList p))).toArray
+
+/-- `{"op":"digest","seq":…,"enzyme":…,"mode":"full"|"semi"|"none"|…,"min":n,"max":n,"mc":n,"met":bool}`
+    → `{"peptides":[…]}` in emission order (duplicates kept) or `{"err":…}` -/
+def handleDigest (j : Json) : R Json := do
+  let seq ← jstr (← jget j "seq")
+  let enzyme ← jstr (← jget j "enzyme")
+  let mode ← jstr (← jget j "mode")
+  let minL ← jnat (← jget j "min")
+  let maxL ← jnat (← jget j "max")
+  let mc ← jnat (← jget j "mc")
+  let met ← jbool (← jget j "met")
+  match C08.digestByName enzyme seq.toList minL maxL mode mc met with
+  | .ok l => pure (obj [("peptides", ofPeptides l)])
+  | .error e => pure (ofErr (errName e))
+
+/-- `{"op":"sites","seq":…,"enzyme":…}` → `{"sites":[cut positions 1..n-1 where the declarative rule fires]}` -/
+def handleSites (j : Json) : R Json := do
+  let seq ← jstr (← jget j "seq")
+  let enzyme ← jstr (← jget j "enzyme")
+  match C08.lookupEnzyme enzyme with
+  | none => pure (ofErr "unknown_enzyme")
+  | some r =>
+    let s := seq.toList
+    pure (obj [("sites", ofList ofNat ((List.range s.length).filter (fun x => decide (C08.Site r s x))))])
+
 /-- protocol handlers of property C08: (op name, handler) -/
-def handlersC08 : List (String × (Json → R Json)) := []
+def handlersC08 : List (String × (Json → R Json)) := [("digest", handleDigest), ("sites", handleSites)]
 end PgFdr.Driver
